@@ -162,6 +162,9 @@ pub enum StmFilter {
     /// two stages: /Filter [/ASCIIHexDecode /FlateDecode] (parameters, if any, belong to the second:
     /// /DecodeParms [null << .. >>])
     HexFlate,
+    /// ASCII85 as standard encoders write it: `z` for a zero group, a short final group of n bytes
+    /// as n+1 digits, `~>` at the end, a line break every 15 groups
+    Ascii85,
 }
 
 #[derive(Clone, Debug, PartialEq)]
@@ -356,7 +359,66 @@ pub fn apply_filter(f: StmFilter, data: &[u8]) -> (Vec<u8>, Option<&'static str>
         StmFilter::AsciiHex => (ascii_hex(data), Some("ASCIIHexDecode")),
         StmFilter::Lzw => (lzw(data, true), Some("LZWDecode")),
         StmFilter::HexFlate => (ascii_hex(&zlib_stored(data)), Some("ASCIIHexDecode FlateDecode")),
+        StmFilter::Ascii85 => (ascii85(data), Some("ASCII85Decode")),
     }
+}
+
+pub fn ascii85(data: &[u8]) -> Vec<u8> {
+    let mut out = Vec::with_capacity(data.len() / 4 * 5 + 8);
+    for (gi, g) in data.chunks(4).enumerate() {
+        if gi > 0 && gi % 15 == 0 {
+            out.push(b'\n');
+        }
+        let mut w = [0u8; 4];
+        w[..g.len()].copy_from_slice(g);
+        let mut n = u32::from_be_bytes(w) as u64;
+        if g.len() == 4 && n == 0 {
+            out.push(b'z');
+            continue;
+        }
+        let mut d = [0u8; 5];
+        for i in (0..5).rev() {
+            d[i] = (n % 85) as u8 + b'!';
+            n /= 85;
+        }
+        out.extend_from_slice(&d[..g.len() + 1]);
+    }
+    out.extend_from_slice(b"~>");
+    out
+}
+
+/// independent decoder for the writer's own reader (full groups, `z`, short final group padded with `u`)
+pub fn unascii85(raw: &[u8]) -> Option<Vec<u8>> {
+    let mut out = vec![];
+    let mut g: Vec<u64> = vec![];
+    for &c in raw {
+        match c {
+            b'\n' | b'\r' | b' ' | b'\t' => {}
+            b'~' => break,
+            b'z' if g.is_empty() => out.extend_from_slice(&[0; 4]),
+            b'!'..=b'u' => {
+                g.push((c - b'!') as u64);
+                if g.len() == 5 {
+                    let n = g.iter().fold(0u64, |a, d| a * 85 + d);
+                    out.extend_from_slice(&u32::try_from(n).ok()?.to_be_bytes());
+                    g.clear();
+                }
+            }
+            _ => return None,
+        }
+    }
+    if g.len() == 1 {
+        return None;
+    }
+    if !g.is_empty() {
+        let k = g.len();
+        while g.len() < 5 {
+            g.push(84);
+        }
+        let n = g.iter().fold(0u64, |a, d| a * 85 + d);
+        out.extend_from_slice(&u32::try_from(n).ok()?.to_be_bytes()[..k - 1]);
+    }
+    Some(out)
 }
 
 /// Predictor encoding of `data` in rows of `row` bytes (one colour, 8 bits per component):
@@ -841,6 +903,7 @@ pub fn strict_read(bytes: &[u8], spec: &DocSpec, k: usize) -> Result<BTreeMap<u3
                         unhex(&t).ok_or("hex")?
                     }
                     StmFilter::FlateStored => unstored(raw).ok_or("stored zlib")?,
+                    StmFilter::Ascii85 => unascii85(raw).ok_or("ascii85")?,
                     StmFilter::HexFlate => {
                         let mut t = std::str::from_utf8(raw).map_err(|_| "hex")?.replace(['\n', '>'], "");
                         if t.len() % 2 == 1 {
@@ -985,6 +1048,7 @@ fn filter_name(f: StmFilter) -> &'static str {
         StmFilter::AsciiHex => "ascii_hex",
         StmFilter::Lzw => "lzw",
         StmFilter::HexFlate => "hex_flate",
+        StmFilter::Ascii85 => "ascii85",
     }
 }
 fn filter_from(s: &str) -> Option<StmFilter> {
@@ -994,6 +1058,7 @@ fn filter_from(s: &str) -> Option<StmFilter> {
         "ascii_hex" => StmFilter::AsciiHex,
         "lzw" => StmFilter::Lzw,
         "hex_flate" => StmFilter::HexFlate,
+        "ascii85" => StmFilter::Ascii85,
         _ => return None,
     })
 }
